@@ -11,7 +11,7 @@ import (
 // C10 - inheritance: the most-derived block wins, Super reaches the parent.
 
 type belem struct {
-	kind string // text super block var
+	kind string // text super block var tick
 	text string
 	name string // nested block name (kind block)
 	wrap string // "", if1, if0, for
@@ -48,7 +48,12 @@ func (g *c10Gen) defBody(t *btmpl, name string, allowSuper bool, depth int, know
 		case k < 6 && allowSuper:
 			out = append(out, belem{kind: "super"})
 		case k == 6:
-			out = append(out, belem{kind: "var", text: g.r.Pick([]string{"v", "i"})})
+			if g.r.Bool() {
+				// a definition whose rendering differs every time it is rendered (a counting function)
+				out = append(out, belem{kind: "tick"})
+			} else {
+				out = append(out, belem{kind: "var", text: g.r.Pick([]string{"v", "i"})})
+			}
 		case k >= 7 && depth > 0:
 			// nested block: a new name, or (in a child) a name known from an ancestor that this template does not define yet
 			var nn string
@@ -83,6 +88,8 @@ func c10Src(t *btmpl, elems []belem) string {
 			sb.WriteString("{{ block.Super }}")
 		case "var":
 			sb.WriteString("{{ " + e.text + " }}")
+		case "tick":
+			sb.WriteString("{{ tick() }}")
 		case "block":
 			b := "{% block " + e.name + " %}" + c10Src(t, t.defs[e.name]) + "{% endblock %}"
 			switch e.wrap {
@@ -114,6 +121,7 @@ type c10Ref struct {
 	vars   map[string]string
 	depth  int
 	cyclic bool // a block reaches itself again through block.Super: the engine must report an error
+	ticks  int  // calls of the counting function so far (one counter per execution)
 }
 
 func (r *c10Ref) defsOf(name string) []*btmpl {
@@ -139,6 +147,9 @@ func (r *c10Ref) elems(t *btmpl, es []belem, blockName string, defIdx int) {
 			r.out.WriteString(e.text)
 		case "var":
 			r.out.WriteString(r.vars[e.text])
+		case "tick":
+			r.ticks++
+			fmt.Fprintf(&r.out, "#%d", r.ticks)
 		case "super":
 			if defIdx > 0 {
 				ds := r.defsOf(blockName)
@@ -171,18 +182,68 @@ func (r *c10Ref) elems(t *btmpl, es []belem, blockName string, defIdx int) {
 const c10Cyclic = "\x00cyclic"
 
 func c10Expected(chain []*btmpl) string {
+	return c10ExpectedTimes(chain, 1)[0]
+}
+
+// c10ExpectedTimes renders the chain's document several times within ONE execution (one counter)
+func c10ExpectedTimes(chain []*btmpl, times int) []string {
 	r := &c10Ref{chain: chain, vars: map[string]string{"v": "V", "i": ""}}
-	r.elems(chain[0], chain[0].doc, "", 0)
-	if r.cyclic {
-		return c10Cyclic
+	var outs []string
+	for k := 0; k < times; k++ {
+		r.out.Reset()
+		r.elems(chain[0], chain[0].doc, "", 0)
+		if r.cyclic {
+			outs = append(outs, c10Cyclic)
+		} else {
+			outs = append(outs, r.out.String())
+		}
 	}
-	return r.out.String()
+	return outs
 }
 
 var c10Boom int64
 
 func c10Ctx() pongo2.Context {
-	return pongo2.Context{"v": "V", "two": []string{"a", "b"}, "boom": func() string { atomic.AddInt64(&c10Boom, 1); return "BOOM" }}
+	ticks := 0
+	return pongo2.Context{"v": "V", "two": []string{"a", "b"}, "boom": func() string { atomic.AddInt64(&c10Boom, 1); return "BOOM" },
+		"tick": func() string { ticks++; return fmt.Sprintf("#%d", ticks) }}
+}
+
+// c10ExpectedBlocks mirrors Template.ExecuteBlocks for the template chain[len-1]: the requested blocks are looked up
+// from the template upwards and each is rendered once - as the most-derived definition within the chain, with its
+// Super chain - all with one context (one counter).
+func c10ExpectedBlocks(chain []*btmpl, names []string) (map[string]string, bool) {
+	res := map[string]string{}
+	leaf := chain[len(chain)-1]
+	wanted := false
+	for _, n := range names {
+		if _, ok := leaf.defs[n]; ok {
+			wanted = true
+		}
+	}
+	if !wanted {
+		return res, true
+	}
+	r := &c10Ref{chain: chain, vars: map[string]string{"v": "V", "i": ""}}
+	for i := len(chain) - 1; i >= 0; i-- {
+		for _, n := range names {
+			if _, done := res[n]; done {
+				continue
+			}
+			if _, ok := chain[i].defs[n]; !ok {
+				continue
+			}
+			r.out.Reset()
+			ds := r.defsOf(n)
+			last := len(ds) - 1
+			r.elems(ds[last], ds[last].defs[n], n, last)
+			if r.cyclic {
+				return nil, false
+			}
+			res[n] = r.out.String()
+		}
+	}
+	return res, true
 }
 
 func (g *c10Gen) base() *btmpl {
@@ -315,6 +376,40 @@ func c10Run(c *C) {
 			c.Fail("child-toplevel-evaluated", D{"files": files, "rendered": t.file})
 			return false
 		}
+		// the blocks one by one (ExecuteBlocks): each shows the same most-derived definition and the same Super chain
+		var names []string
+		for _, ct := range ch {
+			names = append(names, ct.order...)
+		}
+		names = append(names, "nosuchblock")
+		seenName := map[string]bool{}
+		uniq := names[:0]
+		for _, n := range names {
+			if !seenName[n] {
+				seenName[n] = true
+				uniq = append(uniq, n)
+			}
+		}
+		names = uniq
+		for k := len(names) - 1; k > 0; k-- {
+			j := c.R.Intn(k + 1)
+			names[k], names[j] = names[j], names[k]
+		}
+		if wantBlocks, ok := c10ExpectedBlocks(ch, names); ok {
+			got, berr := tpl.ExecuteBlocks(c10Ctx(), names)
+			c.Eval(1)
+			if berr != nil {
+				c.Fail("inheritance-mismatch", D{"files": files, "rendered": t.file, "entry": "ExecuteBlocks", "requested": names, "error": berr.Error()})
+				return false
+			}
+			for n, w := range wantBlocks {
+				if g, has := got[n]; !has || g != w {
+					c.Fail("inheritance-mismatch", D{"files": files, "rendered": t.file, "entry": "ExecuteBlocks", "requested": names, "block": n, "output": q(g), "returned": has, "expected": q(w)})
+					return false
+				}
+			}
+			c.Cover("execute_blocks")
+		}
 		return true
 	}
 	// the base directly, before any child was compiled
@@ -388,7 +483,7 @@ func c10Run(c *C) {
 			c.Eval(1)
 			want := h.pre + mwant
 			if h.n == 2 {
-				want += "|" + mwant
+				want += "|" + c10ExpectedTimes(mchain, 2)[1] // the second rendering within the same execution: the counter goes on
 			}
 			want += h.post
 			if xerr != nil || out != want {
@@ -473,7 +568,7 @@ func init() {
 		},
 		Run: c10Run,
 		Rule: "random inheritance chains of depth 0-4 above a base (plus a sibling branching off the chain) served from an in-memory loader: per level every known block is overridden (with or without block.Super, possibly declaring nested blocks under new or inherited names, wrapped in if/for) or inherited, dangling blocks are added, child top-level text/failing expressions/a counting function are added; " +
-			"the base is rendered before any child exists, then every template of the chain (root-first or leaf-first), the sibling, and all of them again afterwards, through FromFile or FromCache; each output is compared with a reference resolution (most-derived definition wins wherever the block is placed, Super = next less-derived definition, empty at the base); a member of the chain is also rendered through host documents (static include, computed-name include, ssi parsed, include from a block of a template with a chain of its own); one case in ten checks the invalid shapes (second/nested extends, duplicate block) and that valid shapes compile. distinct_nontrivial = distinct chains of depth >= 1.",
+			"the base is rendered before any child exists, then every template of the chain (root-first or leaf-first), the sibling, and all of them again afterwards, through FromFile or FromCache; each output is compared with a reference resolution (most-derived definition wins wherever the block is placed, Super = next less-derived definition, empty at the base); every template is also rendered block by block through ExecuteBlocks (same definitions, same Super chains); definitions may call a counting function, so that rendering a parent definition twice is visible; a member of the chain is also rendered through host documents (static include, computed-name include, ssi parsed, include from a block of a template with a chain of its own); one case in ten checks the invalid shapes (second/nested extends, duplicate block) and that valid shapes compile. distinct_nontrivial = distinct chains of depth >= 1.",
 		MinNontriv:  1000,
 		Assumptions: []string{"extends is always the first tag of a child", "ExecuteBlocks is not exercised"},
 	})
